@@ -16,7 +16,8 @@ class PROP(Prop):
             "{untouched,0,2} (quick; +11,104,103,32,107,110 thorough and always for the orderly end of stream) forced before every poll.  non-trivial = a fault or a piecewise write was actually injected")
 
     def shapes(self, rng, tier):
-        reqs = [("RHR", 0, 2), ("RC", 7, 19), ("WSC", 3, True), ("WMR", 9, [1, 2, 3]), ("RSI",), ("MWR", 1, 2, 3), ("WMC", 1, [True] * 11)]
+        reqs = [("RHR", 0, 2), ("RC", 7, 19), ("WSC", 3, True), ("WMR", 9, [1, 2, 3]), ("RSI",), ("MWR", 1, 2, 3), ("WMC", 1, [True] * 11),
+                ("CU", 0x18, b"\x12\x34"), ("CU", 0x07, b""), ("CU", 0x0C, b""), ("CU", 0x0B, b"")]
         if tier == "thorough":
             reqs += [mb.rnd_req(rng) for _ in range(12)]
             reqs = [r for r in reqs if mb.spec_req_size(r) <= 253]
@@ -30,6 +31,9 @@ class PROP(Prop):
                     continue
                 slave = rng.randrange(1, 248)
                 rsp = mb.matching_rsp(rng, req)
+                if req[0] == "CU":
+                    # replies of the serial-line codes in the shape the RTU response length table expects
+                    rsp = ("CU", req[1], {0x18: bytes([0, 4, 0xAA, 0xBB, 0xCC, 0xDD]), 0x07: b"\x55", 0x0C: bytes([3, 1, 2, 3]), 0x0B: bytes([0, 0, 0, 9])}[req[1]])
                 reply = cligen.frame(proto, 0, slave, mb.spec_rsp_pdu(rsp))
                 frame = cligen.frame(proto, 0, slave, mb.spec_req_pdu(req))
                 good = "OK:" + mb.show_rsp(mb.pad_rsp(rsp))
